@@ -79,6 +79,30 @@ def run_case(case, pname, variant, occ=0):
     tab('aggregate(list,n)', lambda: etl.aggregate(t, key, list, 'n', **kw), khdr + ['value'], lambda g: kk(g) + [ns(g)])
     tab('aggregate(max,n,field=m)', lambda: etl.aggregate(t, key, max, 'n', field='m', **kw), khdr + ['m'],
         lambda g: kk(g) + [max(ns(g))])
+    # --- the same operators with the key given by field INDEX (0 / (0, 1)): rows must be identical; the
+    #     header cell of an index key is whatever the operator echoes, so only data rows are compared
+    ikey = 0 if kf == 'k' else (0, 1)
+
+    def rows_only(label, fn, rowfn):
+        try:
+            rows = [tuple(r) for r in fn()]
+        except Exception as e:
+            problems.append('%s raised %r' % (label, e))
+            return
+        eq(label, [tuple(_abs_key(prof, r, nk)) for r in rows[1:]], [tuple(rowfn(g)) for g in G])
+    rows_only('aggregate(len,key=index)', lambda: etl.aggregate(t, ikey, len, **kw), lambda g: kk(g) + [len(g['rows'])])
+    rows_only('aggregate(list,n,key=index)', lambda: etl.aggregate(t, ikey, list, 'n', **kw), lambda g: kk(g) + [ns(g)])
+    rows_only('aggregate(dict,key=index)', lambda: etl.aggregate(t, ikey, OrderedDict([('c', len), ('s', ('n', sum))]), **kw),
+              lambda g: kk(g) + [len(g['rows']), sum(ns(g))])
+    rows_only('rowreduce(key=index)', lambda: etl.rowreduce(t, ikey, lambda k, rows: (list(k) if isinstance(k, tuple) and nk > 1 else [k]) + [sum(r[2] for r in rows)],
+                                                           header=khdr + ['tot'], **kw), lambda g: kk(g) + [sum(ns(g))])
+    try:
+        got = [tuple(r) for r in etl.groupselectfirst(t, ikey, **kw)]
+        eq('groupselectfirst(key=index)', [absrow(r) for r in got[1:]], [tuple(g['first']) for g in G])
+        got = [tuple(r) for r in etl.groupselectmax(t, ikey, 2, **kw)]
+        eq('groupselectmax(key=index)', [absrow(r) for r in got[1:]], [tuple(g['maxrow']) for g in G])
+    except Exception as e:
+        problems.append('groupselect(key=index) raised %r' % (e,))
     # --- aggregate, multi forms (dict / list of tuples / setitem)
     agg = OrderedDict([('cnt', len), ('tot', ('n', sum)), ('ns', 'n'), ('mn', ('n', min)), ('pairs', (('n', 'n'), list))])
     tab('aggregate(dict)', lambda: _listify(etl.aggregate(t, key, agg, **kw)), khdr + list(agg),
